@@ -158,9 +158,29 @@ def check(run, prog, tier):
         for e in p.events:
             if e.kind == "call" and any(f.qual == send_sd.qual for f in e.targets) and e.loopdepth == 0:
                 outside.add(id(e.node))
-    run.ob("N2", f"{sf.qual}:rounds-bounded", rep_ok and len(outside) == 1 and max_sends == 1 + U, loc(sf),
-           f"one initial round plus one per iteration of range(REPETITIONS_MAX) ({len(outside)} transmission site(s) outside the loop; "
-           f"{max_sends} rounds on the longest path with {U} unrolled repetitions)")
+    # decided on the path conditions about REPETITIONS_MAX (every iteration taken through range(REPETITIONS_MAX) and every
+    # exit from it is a recorded decision): for N = 0..U the paths feasible for N transmit at most 1 + N times and one of
+    # them exactly 1 + N times - whatever the loop structure looks like
+    rmax = ("attr", ("attr", me, "timings"), "REPETITIONS_MAX")
+    bound_ok = rep_ok
+    detail = []
+    for N in range(U + 1):
+        def leafN(tm, N=N):
+            if tm == rmax:
+                return N
+            raise AnalysisError(f"{sf.qual}: repetition bound compared with {show(tm)}")
+        counts = []
+        for p in paths:
+            if p.truncated or not (p.returns() or p.outcome[0] == "fall"):
+                continue
+            rel = [(c, v) for c, v, _, _ in p.conds if contains(c, lambda s_: s_ == rmax)]
+            if all(bool(eval_term(c, leafN)) == v for c, v in rel):
+                counts.append(len(calls_to(p, send_sd.qual)))
+        detail.append(f"N={N}: at most {max(counts) if counts else '?'}")
+        if not counts or max(counts) != 1 + N:
+            bound_ok = False
+    run.ob("N2", f"{sf.qual}:rounds-bounded", bound_ok, loc(sf),
+           f"one initial round plus at most REPETITIONS_MAX repetition rounds ({'; '.join(detail)} transmission(s))")
     # empty list => return (decided semantically: the path with the first list empty has no transmission)
     first_empty = [p for p in paths if p.returns() and not calls_to(p, send_sd.qual) and any(e.kind == "await" for e in p.events)]
     run.ob("N2", f"{sf.qual}:nothing-to-ask-nothing-sent", bool(first_empty), loc(sf), "when nothing is left to ask for, nothing is transmitted")
